@@ -1,13 +1,13 @@
 CONSTANTS
   Keys = {1, 2, 3}
   Prios = {1, 2}
-  MaxMut = 4
-  NSnap = 2
+  MaxMut = 3
+  NSnap = 1
   NReader = 1
   FixClose = 2
-  MaxVer = 9
-  AllowFail = FALSE
-  FixFail = TRUE
+  MaxVer = 7
+  AllowFail = TRUE
+  FixFail = FALSE
   QuiescentClose = FALSE
 SPECIFICATION Spec
 INVARIANTS Safe NoReachableFree RefsOK NoDoubleFree VerFreeOK AllReleased RefsAreHolders 
